@@ -198,6 +198,34 @@ def to_runtime(v: typing.Any, memo: typing.Optional[dict] = None) -> typing.Any:
     return v
 
 
+def wrap_maps(v: typing.Any, how: typing.Optional[str], depth: int = 0, top_too: bool = False) -> typing.Any:
+    """the same document with its nested maps handed over as another kind of Mapping (read-only view, ChainMap, OrderedDict,
+    UserDict): the API is typed typing.Mapping / Any, and a caller's frozen or layered configuration is such an object"""
+    import collections
+    import types
+
+    from nunavut._utilities import DefaultValue
+
+    if not how:
+        return v
+    if isinstance(v, DefaultValue):
+        return v
+    if isinstance(v, dict):
+        inner = {k: wrap_maps(x, how, depth + 1) for k, x in v.items()}
+        if depth == 0 and not top_too:
+            return inner
+        if how == "proxy":
+            return types.MappingProxyType(inner)
+        if how == "chain":
+            return collections.ChainMap(inner)
+        if how == "ordered":
+            return collections.OrderedDict(inner)
+        return collections.UserDict(inner)
+    if isinstance(v, list):
+        return [wrap_maps(x, how, depth + 1) for x in v]
+    return v
+
+
 def unwrap(v: typing.Any) -> typing.Any:
     from nunavut._utilities import DefaultValue
 
@@ -263,6 +291,7 @@ class ModelBuilder:
         self.sections = {k: model_from_doc(v) for k, v in builtin.items()}
         self.overrides = {}  # type: typing.Dict[str, typing.Any]
         self.indeterminate = False
+        self.foreign_map_overrides = set()  # type: typing.Set[str]
 
     @property
     def section(self) -> str:
@@ -346,6 +375,8 @@ def run_case(case: dict, ctx: dict) -> dict:
                 o = {"op": "update", "b": ro.below(nb), "doc": _rand_section_doc(ro.sub("d"), ro.chance(1, 3))}
                 if ro.chance(1, 5):
                     o["alias"] = [0, ro.choice(["custom_map", "named_types", "named_values"]), ro.choice(["custom_map", "named_types", "named_values", "alias_target"])]
+                elif ro.chance(1, 4):
+                    o["maptype"] = ro.choice(["chain", "ordered", "userdict"])
                 ops.append(o)
             elif kind == "override":
                 key = ro.choice(TOP_KEYS)
@@ -356,6 +387,8 @@ def run_case(case: dict, ctx: dict) -> dict:
                 o = {"op": "override", "b": ro.below(nb), "key": key, "value": val}
                 if key == "extension" and ro.chance(1, 2):
                     o["via"] = "set_target_language_extension"
+                if isinstance(val, dict) and set(val.keys()) != {D} and ro.chance(1, 4):
+                    o["maptype"] = ro.choice(["chain", "ordered", "userdict"])
                 ops.append(o)
             elif kind == "create":
                 ops.append({"op": "create", "b": ro.below(nb)})
@@ -431,7 +464,8 @@ def run_case(case: dict, ctx: dict) -> dict:
 
     def write_yaml(section: str, doc: typing.Any) -> str:
         file_no[0] += 1
-        p = os.path.join(scratch, "cfg%d.yaml" % file_no[0])
+        # (named so that the order in which files are given is unrelated to the lexicographic order of their paths)
+        p = os.path.join(scratch, "%s-cfg%d.yaml" % (hashlib.sha256(b"cfg%d" % file_no[0]).hexdigest()[:4], file_no[0]))
         if doc == "MISSING":
             return p + ".does-not-exist"
         with open(p, "w", encoding="utf-8") as f:
@@ -576,7 +610,16 @@ def run_case(case: dict, ctx: dict) -> dict:
             if doc_eff is not op["doc"]:
                 bump("probes", "document_with_shared_sub_object")
             doc_rt = to_runtime({section: doc_eff})
-            handed_in.append(("config.update", doc_rt, unwrap(copy.deepcopy(doc_rt))))
+            pre_image = unwrap(copy.deepcopy(doc_rt))
+            if op.get("maptype") and doc_eff is op["doc"]:
+                # (depth 0 is the map of sections, depth 1 the section: both stay plain dicts, everything below is wrapped)
+                doc_rt = {section: {k: wrap_maps(x, op["maptype"], 1) for k, x in doc_rt[section].items()}}
+                bump("probes", "document_with_non_dict_mappings")
+            handed_in.append(("config.update", doc_rt, pre_image))
+            if op.get("maptype") and doc_eff is op["doc"] and any(isinstance(x, dict) and set(x) != {D} and isinstance(mdl.sections.get(section, {}).get(k), MV) for k, x in doc_eff.items()):
+                # (the caller's own kind of Mapping lands where the configuration holds a scalar: see "create")
+                mdl.indeterminate = True
+                bump("probes", "foreign_mapping_replaces_scalar_not_modelled")
             try:
                 bld.config.update(doc_rt)
                 mdl.apply_doc(section, doc_eff)
@@ -593,7 +636,12 @@ def run_case(case: dict, ctx: dict) -> dict:
         elif kind == "override":
             val_rt = to_runtime(op["value"])
             if isinstance(val_rt, (dict, list)):
-                handed_in.append(("override-value", val_rt, unwrap(copy.deepcopy(val_rt))))
+                pre_image = unwrap(copy.deepcopy(val_rt))
+                if op.get("maptype"):
+                    val_rt = wrap_maps(val_rt, op["maptype"], 0, top_too=True)
+                    mdl.foreign_map_overrides.add(op["key"])
+                    bump("probes", "override_value_is_non_dict_mapping")
+                handed_in.append(("override-value", val_rt, pre_image))
             if op.get("via") == "set_target_language_extension" and op["key"] == "extension":
                 bld.set_target_language_extension(val_rt)  # documented as the same call
             else:
@@ -624,9 +672,15 @@ def run_case(case: dict, ctx: dict) -> dict:
                     c["stale"] = True
             # lists are kept by reference (they are replaced, never merged): the caller's own edit may show in a document the
             # caller handed in earlier - that is the caller editing its document, not the merge modifying it
-            handed_in[:] = [(what, obj, unwrap(copy.deepcopy(obj))) for what, obj, _ in handed_in]
+            handed_in[:] = [(what, obj, copy.deepcopy(unwrap(obj))) for what, obj, _ in handed_in]
             trace.append("edit(b%d,%s,%s)" % (b, op["key"], op["via"]))
         elif kind == "create":
+            if any(isinstance(mdl.sections.get(mdl.section, {}).get(k), MV) for k in mdl.foreign_map_overrides):
+                # an override whose value is the caller's own kind of Mapping lands where the merged configuration holds a
+                # scalar: nunavut stores (a copy of) the foreign object itself, which its dict-typed accessors then refuse as
+                # documented - nothing the statement speaks about; this builder is not modelled any further
+                mdl.indeterminate = True
+                bump("probes", "foreign_mapping_replaces_scalar_not_modelled")
             want, predicts_raise = (None, False) if mdl.indeterminate else mdl.create()
             for c in contexts:
                 if c["b"] == b:
@@ -674,6 +728,13 @@ def run_case(case: dict, ctx: dict) -> dict:
                                     acc = unwrap(lang_obj.get_config_value_as_dict(k))  # type: typing.Any
                                 except Exception as ex:  # pylint: disable=broad-except
                                     acc = "raised %s" % type(ex).__name__
+                                    raw = lctx.config.sections().get(section, {}).get(k)
+                                    if isinstance(ex, TypeError) and not isinstance(raw, dict) and hasattr(raw, "items"):
+                                        # documented: "TypeError if the value exists but is not a dict" - the merged value is
+                                        # the caller's own kind of Mapping (stored where no map was before); the merge itself was
+                                        # compared above through the mapping interface
+                                        bump("probes", "as_dict_refuses_callers_own_mapping_kind")
+                                        continue
                             elif isinstance(v, list):
                                 try:
                                     acc = unwrap(lang_obj.get_config_value_as_list(k))
